@@ -384,6 +384,25 @@ UcModel(recs) ==
   IN [obs |-> oo, samp |-> so, mat |-> [i \in 1..Len(oo) |-> [j \in 1..Len(so) |-> R(UcCount(recs, oo[i], so[j]))]],
       omd |-> NoMd, smd |-> NoMd, type |-> "", tid |-> ""]
 
+(******************************* validator ********************************)
+\* which well-formedness fact a mutation falsifies (the ideal validator of the model reports
+\* valid exactly when every fact holds)
+Pre(m, p) == Len(m) >= Len(p) /\ SubSeq(m, 1, Len(p)) = p
+MutFacts(fmt, muts) ==
+  LET has(P(_)) == \E k \in 1..Len(muts) : P(muts[k])
+      missing == has(LAMBDA m : Pre(m, "del:") \/ Pre(m, "rename:") \/ Pre(m, "delattr:") \/ Pre(m, "delgrp:")
+                                \/ Pre(m, "delds:") \/ m \in {"ids:del_row_id", "ids:del_col_md"})
+  IN [parse_ok |-> TRUE,
+      required_present |-> ~missing,
+      shape_matches_ids |-> ~has(LAMBDA m : Pre(m, "shape:")),
+      coords_in_shape |-> ~has(LAMBDA m : m \in {"coord:row_out", "coord:col_out", "coord:negative", "coord:obs_index_out",
+                                                  "coord:samp_index_out", "coord:obs_index_negative"}),
+      element_types_ok |-> ~has(LAMBDA m : Pre(m, "type:") \/ m \in {"coord:index_text", "coord:value_text", "coord:malformed"}),
+      ids_nonempty_unique |-> ~has(LAMBDA m : m \in {"ids:dup_row", "ids:dup_col", "ids:blank_row", "ids:blank_col",
+                                                      "ids:dup_obs", "ids:dup_samp", "ids:blank_obs", "ids:blank_samp"}),
+      metadata_object_or_null |-> ~has(LAMBDA m : m \in {"md:row_text", "md:col_list", "md:row_number"}),
+      numeric |-> TRUE]
+
 (***************************** model events ******************************)
 NatSorted(ids) == SortSeq(ids, LAMBDA x, y : NatRank[x] < NatRank[y])
 SortF(f, ids) ==
@@ -523,6 +542,12 @@ ModelEvent(h, st) ==
      [] st.call = "parse_uc" ->
           IF \A k \in 1..Len(a.records) : a.records[k][1] \notin {"H", "S"} THEN Ev(st, h, h, "error", [none |-> TRUE])
           ELSE Ev(st, h, Put(h, st.res, Fresh(UcModel(a.records))), "ok", [none |-> TRUE])
+     [] st.call = "validate" ->
+          LET f == MutFacts(a.fmt, a.muts)
+              decl == [obs |-> pre.obs, samp |-> pre.samp, mat |-> pre.mat]
+          IN Ev(st, h, h, "ok", [wrote |-> "ok", facts |-> f,
+                                 valid |-> WellFormedFacts(f) /\ ~\E k \in 1..Len(a.muts) : Pre(a.muts[k], "hdr:"),
+                                 loaded |-> "ok", declared |-> decl, got |-> decl])
      [] OTHER -> Ev(st, h, h, "error", [nothing |-> TRUE])
 
 (************************** argument alphabets ***************************)
@@ -771,6 +796,12 @@ StepsFor(call, h, recv, res, full) ==
             r \in AdjRecordSets, hd \in BOOLEAN, i \in (IF full THEN {"lines", "text", "handle"} ELSE {"lines"})}
     [] call = "parse_uc" ->
          {St(call, recv, res, [records |-> r, comments |-> c]) : r \in UcRecordSets, c \in BOOLEAN}
+    [] call = "validate" ->
+         UNION {
+           LET M == IF fmt = "json" THEN JsonMutations ELSE Hdf5Mutations IN
+           {St(call, recv, recv, [fmt |-> fmt, muts |-> ms]) :
+              ms \in {<<>>} \cup {<<m>> : m \in M} \cup (IF full THEN {<<m1, m2>> : m1 \in M, m2 \in M} ELSE {})}
+           : fmt \in {"json", "hdf5"}}
     [] OTHER -> {}
 
 (****************************** the machine ******************************)
